@@ -85,6 +85,21 @@ This is to be used in custom allocators."#,
         ));
     }
 
+    // Same for type alignment: a substitution by a type of same size but different alignment
+    // (stale cross-compilation type table for example) would lead to misaligned data.
+    let type_align_assertions = definition
+        .variants()
+        .flat_map(|variant| variant.data())
+        .map(|d| &definition[d])
+        .map(|datum| (datum.details().type_name(), datum.details().type_align()))
+        .collect::<BTreeSet<_>>();
+    for (type_name, align) in type_align_assertions {
+        scope.raw(format!(
+            "const_assert_eq!(std::mem::align_of::<{}>(), {});",
+            type_name, align
+        ));
+    }
+
     scope.to_string()
 }
 
